@@ -28,6 +28,8 @@ pub struct Peer {
     pub reset_sids: Vec<u32>,
     /// PINGs seen while automatic acknowledgement was off (acknowledged when it is switched on again)
     pub pending_pings: Vec<[u8; 8]>,
+    /// C08: byte-level mutation of everything this peer writes (rng, octets written so far)
+    pub mutator: std::cell::RefCell<Option<(rand::rngs::StdRng, usize)>>,
 }
 
 pub fn unhex(s: &str) -> Vec<u8> {
@@ -64,6 +66,7 @@ impl Peer {
             eof_sent: false,
             reset_sids: vec![],
             pending_pings: vec![],
+            mutator: std::cell::RefCell::new(scn.peer_cfg.mutate.map(|(seed, _, _)| (<rand::rngs::StdRng as rand::SeedableRng>::seed_from_u64(seed), 0usize))),
         }
     }
 
@@ -73,6 +76,28 @@ impl Peer {
 
     pub fn send_bytes(&self, w: &mut World, b: &[u8]) {
         let d = self.wdir();
+        let mut m = self.mutator.borrow_mut();
+        if let (Some((rng, sent)), Some((_, after, one_in))) = (m.as_mut(), self.cfg.mutate) {
+            use rand::Rng;
+            // flip a bit / replace / drop / duplicate single octets of the stream (frame heads, lengths, HPACK, payloads alike)
+            let mut out = Vec::with_capacity(b.len() + 4);
+            for &x in b {
+                *sent += 1;
+                if *sent > after && rng.gen_ratio(1, one_in.max(2)) {
+                    match rng.gen_range(0..5) {
+                        0 => out.push(x ^ (1 << rng.gen_range(0..8))),
+                        1 => out.push(rng.gen()),
+                        2 => {}
+                        3 => { out.push(x); out.push(x); }
+                        _ => out.push(if rng.gen_bool(0.5) { 0 } else { 0xff }),
+                    }
+                } else {
+                    out.push(x);
+                }
+            }
+            w.dirs[d].inflight.extend(out);
+            return;
+        }
         w.dirs[d].inflight.extend(b);
     }
 
